@@ -42,6 +42,9 @@ def main(tier, replay=None):
     camp.run([], [["reset", "cycles %d" % m] for m in ((40, 300) if quick else (10, 40, 300, 3000))], "ownership-cycles", sample=False)
     # containers of Boxes, emptied Boxes and Boxes that never owned anything, deleted by the collector
     camp.run([], [["reset", "boxcont %d" % m] for m in ((9, 40, 300) if quick else (5, 9, 40, 300, 3000))], "collected-containers", sample=False)
+    # finalisers that allocate (in the middle of a sweep, and during teardown): every object is still finalised exactly once
+    camp.run([], [["reset", "finalloc %d %d" % (m, k)] for (m, k) in (((40, 3), (300, 8), (300, 1)) if quick else ((10, 1), (40, 3), (300, 8), (300, 1), (3000, 5)))],
+             "allocating-finalisers", sample=False)
     # copies of views (Range, Slice, an iterated Zip) are managed objects like any other: made, collected, torn down
     camp.run([], [["reset", "viewcopy"], ["reset", "new 1 Node std", "root 1 1", "viewcopy", "root 0 0", "collect force", "viewcopy"]], "view-copies", sample=False)
     chk.cov["rule"] = ("an execution = one mutator program in its own process, including the teardown at exit; TLC checks per "
